@@ -166,8 +166,10 @@ def _pres_jobs(tier, seed):
         inst += [("orphans", [o]) for o in (0, 1, 2)]
         nperm = 2
     else:
-        inst = _stopping_instances("quick")
-        nperm = 6
+        inst = _stopping_instances("thorough")
+        # two solves per path: the dearest templates (two cycles, return probability 1/8, out-degree 4) do not finish
+        inst = [x for x in inst if not (x[0] == "dead" and len(x[1][1]) == 4) and x[0] != "cyc2" and not (x[0] == "cyc" and x[1][0] > 1 / 16)]
+        nperm = 4
     for g, a in inst:
         n = build(g, a).n
         for perm in _perms(n, nperm, rnd):
@@ -269,12 +271,15 @@ RULES = ["tl_len", "rew_len", "neg_reward", "bad_player", "final_range", "succ_r
 
 def _mal_jobs(tier, seed):
     bases = [("fig55", [0.5, 0.75]), ("cyc", [1 / 64, P1]), ("p2choice", [[0, 1, 2], P1])]
+    if tier == "thorough":
+        bases += [("dead", [PR, ["D", "A", "F"]]), ("dead", [P1, ["E", "T"]]), ("unreach", ["p2"]), ("orphans", [1]), ("ties", ["tenths"]),
+                  ("lex", [])]
     return [dict(game=g, args=a, rule=r, prune=p, _cost=1) for g, a in bases for r in RULES for p in (True, False)]
 
 
 @harness("pipe.malformed", props=["C09"], jobs=_mal_jobs, covers=["rejected"],
          stubs=["logging -> sweep counter"],
-         bounds="3 well-formed base games (n<=8) x 14 documented rules x EVERY position (state, transition, tuple slot) x bad "
+         bounds="3 (thorough 9) well-formed base games (n<=8) x 14 documented rules x EVERY position (state, transition, tuple slot) x bad "
                 "values: out-of-range indices and negative rewards are unconstrained solver variables (x<0 or x>=n; r<0), types "
                 "from a menu; both pruning modes",
          desc="real solve() on a description with one well-formedness rule broken at a symbolic position: raises ValueError "
